@@ -12,7 +12,7 @@ package status
 //@ use @verif/specs/stdlib.spec:stdlib
 //@ use @verif/specs/stdlib.spec:casket_api
 
-//@ unit status_handler props=C11,C12 nilchecks=on filter=`status\.Status\)\.ServeHTTP$|status\.statusParse$`
+//@ unit status_handler frames=on props=C11,C12 nilchecks=on filter=`status\.Status\)\.ServeHTTP$|status\.statusParse$`
 //@ // the status handler hands the configured code to WriteHeader, which panics outside 100..999: the parser only ever
 //@ // builds rules with a code in that range (obligation at every NewRule call), and the handler relies on exactly that
 //@ // representation invariant of the rules it selects.
@@ -25,6 +25,7 @@ package status
 //@   ensures result != nil && result.StatusCode == status
 //@ extern (github.com/tmpim/casket/caskethttp/httpserver.ConfigSelector).Select
 //@ func statusParse
+//@   modifies Dispenser.cursor, Dispenser.nesting
 //@   requires c != nil
 //@ func (Status).ServeHTTP
 //@   requires w != nil && r != nil && status.Next != nil
